@@ -6,10 +6,10 @@ set_option linter.unusedSectionVars false
 namespace Ucan.Tie
 open Ucan Ucan.GoM
 
-variable {D C : Type} [DecidableEq D]
+variable {D C S : Type} [DecidableEq D]
 
 /-- `delegation.Token.IsValidAt`, regenerated, is the model's `validAt`; `*t.expiration` is never a nil dereference -/
-theorem Dlg_IsValidAt_eq (undef : D) (pol) (g : Gen.DlgTok D) (t : Int) :
+theorem Dlg_IsValidAt_eq (undef : D) (pol) (g : Gen.DlgTok D S) (t : Int) :
     Gen.Dlg_IsValidAt g t = pure ((toDlg undef pol g).validAt t) := by
   unfold Gen.Dlg_IsValidAt Chain.Dlg.validAt Chain.afterBound Chain.beforeBound toDlg
   cases he : g.expiration <;> cases hn : g.notBefore <;>
@@ -23,7 +23,7 @@ theorem Inv_IsValidAt_eq {X : Type} (x : X) (args : Node) (g : Gen.InvTok D C) (
     simp [gand, notNil, deref, bind, Except.bind, pure, Except.pure] <;> grind
 
 /-- the loop of `verifyTimeBoundAt` from position `k` -/
-theorem verifyTime_loop (undef : D) (pol) (g : Gen.InvTok D C) (ds : List (Gen.DlgTok D)) (now : Int)
+theorem verifyTime_loop (undef : D) (pol) (g : Gen.InvTok D C) (ds : List (Gen.DlgTok D S)) (now : Int)
     (hlen : ds.length = g.proof.length) (fuel k : Nat) (hf : ds.length - k < fuel) (hk : k ≤ ds.length) :
     Gen.Inv_verifyTimeBoundAt.loop1 fuel g now ds (k : Int) =
       if ((ds.drop k).map (toDlg undef pol)).all (fun d => d.validAt now) then .ok (.next (ds.length : Int))
@@ -55,7 +55,7 @@ theorem verifyTime_loop (undef : D) (pol) (g : Gen.InvTok D C) (ds : List (Gen.D
 
 /-- `verifyTimeBoundAt`, regenerated, is the model's `verifyTime` (the function C04 is about) -/
 theorem Inv_verifyTimeBoundAt_eq {X : Type} (x : X) (args : Node) (undef : D) (pol) (g : Gen.InvTok D C)
-    (ds : List (Gen.DlgTok D)) (now : Int) (hlen : ds.length = g.proof.length) :
+    (ds : List (Gen.DlgTok D S)) (now : Int) (hlen : ds.length = g.proof.length) :
     Gen.Inv_verifyTimeBoundAt g now ds =
       (Chain.verifyTime now (toInv x args g) (ds.map (toDlg undef pol))).mapError chainErr := by
   unfold Gen.Inv_verifyTimeBoundAt Chain.verifyTime
@@ -70,5 +70,11 @@ theorem Inv_verifyTimeBoundAt_eq {X : Type} (x : X) (args : Node) (undef : D) (p
       simp [hi, ha, hloop, bind, Except.bind, pure, Except.pure, Except.mapError, chainErr]
   · have hi' : (toInv x args g).validAt now = false := by simpa using hi
     simp [hi', bind, Except.bind, pure, Except.pure, Except.mapError, chainErr, throw, throwThe, MonadExceptOf.throw]
+
+/-- `verifyTimeBound` is `verifyTimeBoundAt` at the instant `time.Now()` returned (a parameter of the translation) -/
+theorem Inv_verifyTimeBound_eq (now : Int) (g : Gen.InvTok D C) (ds : List (Gen.DlgTok D S)) :
+    Gen.Inv_verifyTimeBound now g ds = Gen.Inv_verifyTimeBoundAt g now ds := by
+  unfold Gen.Inv_verifyTimeBound
+  cases Gen.Inv_verifyTimeBoundAt g now ds <;> rfl
 
 end Ucan.Tie
